@@ -42,7 +42,7 @@ theorem double_dot_digit {x : List Char} (h : doubleOk ('.' :: x) = true) : hdP 
   rcases hcases with h1 | h1
   · exact h1
   · exfalso
-    have hb : doubleBody (('.' :: x).length + 1) ('.' :: x) = .err := by
+    have hb : doubleBody ('.' :: x) = .err := by
       have hd : digit1 ('.' :: x) = .err := digit1_err_hd (by rw [hdP_cons]; decide)
       unfold doubleBody
       rw [alt_cons_of_err (andThen_of_err hd),
@@ -51,7 +51,7 @@ theorem double_dot_digit {x : List Char} (h : doubleOk ('.' :: x) = true) : hdP 
           exact andThen_of_err (digit1_err_hd h1)),
         alt_cons_of_err (andThen_of_err hd)]
       rfl
-    have : DoubleConstant.parse (('.' :: x).length + 1) ('.' :: x) = .err :=
+    have : DoubleConstant.parse ('.' :: x) = .err :=
       double_err_of_body (opt_of_err (tag_cons_ne (by decide))) (opt_of_err (tag_cons_ne (by decide))) hb
     rw [this] at h; cases h
 
@@ -247,10 +247,10 @@ theorem constPair_step {d : Nat} {kv : ConstValue × ConstValue} (hwk : kv.1.wf 
     tail_rt _ _ _ hR.1 hR.2.1]
   rfl
 
-theorem constArms_err_bracket (d : Nat) (c : Char) (x : List Char) (hc : c = ']' ∨ c = '}' ∨ c = '[' ∨ c = '{') :
+theorem constArms_err_bracket (c : Char) (x : List Char) (hc : c = ']' ∨ c = '}' ∨ c = '[' ∨ c = '{') :
     Literal.parse (c :: x) = .err ∧ (∀ kw v, kw = cs!"true" ∨ kw = cs!"false" → keyword (α := ConstValue) kw v (c :: x) = .err) ∧
-    Path.parse (c :: x) = .err ∧ DoubleConstant.parse (d + 1) (c :: x) = .err ∧ IntConstant.parse (d + 1) (c :: x) = .err := by
-  refine ⟨literal_err_hd ?_, ?_, path_err_hd ?_ (by simp), double_err_hd (d + 1) ?_ ?_ ?_, int_err_hd d ?_ ?_⟩
+    Path.parse (c :: x) = .err ∧ DoubleConstant.parse (c :: x) = .err ∧ IntConstant.parse (c :: x) = .err := by
+  refine ⟨literal_err_hd ?_, ?_, path_err_hd ?_ (by simp), double_err_hd ?_ ?_ ?_, int_err_hd ?_ ?_⟩
   · rcases hc with h | h | h | h <;> subst h <;> rw [hdP_cons] <;> decide
   · intro kw v hk
     rcases hk with h | h <;> subst h <;> apply andThen_of_err <;> apply tag_cons_ne <;>
